@@ -602,6 +602,10 @@ func TestPartitionDeliveryRapid(t *testing.T) {
 		// the timestamps are small integers, today's, or written by a clock an hour or a year ahead of
 		// the merging replica's: a merge depends on its operands only
 		epoch := rapid.SampledFrom([]int64{0, 0, time.Now().Unix() - 5, time.Now().Unix() + 3600, time.Now().Unix() + 365*86400}).Draw(rt, "timestampEpoch")
+		// a fifth of the update sets carry partitions and owners whose state is the zero value of its type
+		// ("unknown": written by a peer that knows a state this code does not, or none): a state is content
+		// like any other. Should a merge refuse such a descriptor, it must refuse it as a whole
+		unknownStates := rapid.IntRange(0, 4).Draw(rt, "unknownStates") == 0
 		var updates []*ring.PartitionRingDesc
 		for u := 0; u < nUpd; u++ {
 			d := ring.NewPartitionRingDesc()
@@ -612,6 +616,9 @@ func TestPartitionDeliveryRapid(t *testing.T) {
 				ts := int64(rapid.IntRange(1, 10).Draw(rt, "ts"))
 				lts := int64(rapid.IntRange(0, 10).Draw(rt, "lts"))
 				st := partState(p, ts, variant)
+				if unknownStates && (int64(p)+ts+int64(variant))%5 == 0 {
+					st = ring.PartitionUnknown
+				}
 				if rapid.IntRange(0, 3).Draw(rt, "del") == 0 {
 					st = ring.PartitionDeleted
 				}
@@ -627,6 +634,9 @@ func TestPartitionDeliveryRapid(t *testing.T) {
 				}
 				ts := int64(rapid.IntRange(1, 10).Draw(rt, "ots"))
 				st, part := ownerContent(oi, ts, variant)
+				if unknownStates && (int64(oi)+ts+int64(variant))%5 == 2 {
+					st = ring.OwnerUnknown
+				}
 				if rapid.IntRange(0, 3).Draw(rt, "odel") == 0 {
 					st = ring.OwnerDeleted
 				}
@@ -652,6 +662,23 @@ func TestPartitionDeliveryRapid(t *testing.T) {
 		var want any = ring.NewPartitionRingDesc()
 		for _, u := range updates {
 			want = partAlg.join(want, any(u))
+		}
+		if unknownStates {
+			vx.Class("update_sets_with_partitions_or_owners_in_the_unknown_state", 1)
+			// every single merge either succeeds or leaves its receiver as it was
+			for ui, u := range updates {
+				recv := ring.NewPartitionRingDesc()
+				if ui > 0 {
+					recv = model.ClonePDesc(updates[ui-1])
+				}
+				before := model.CanonPDesc(recv)
+				if ch, err := recv.Merge(model.ClonePDesc(u), false); err != nil {
+					if after := model.CanonPDesc(recv); after != before {
+						rt.Fatalf("Merge returned the error %q (change %v) and yet changed its receiver:\n before = %s\n after  = %s\n incoming = %s", err, ch, before, after, model.CanonPDesc(u))
+					}
+					return // this code refuses such descriptors as a whole: nothing more to compare
+				}
+			}
 		}
 		var first string
 		for ri, plan := range deliveries {
